@@ -164,7 +164,12 @@ def summarise_post_process(prog, ctx, table, first_byte, nonempty, unsafe_mode, 
                               + [("pay", Payload("bytes", range(256), Sym("rest", (), "usize", 0, 1 << 20), origin="delta_rest"))])
                 out.marks.append((snap_len, 0))
                 out.writes.append(("out", list(delta.parts)))
-                out.cur_len = I2.binop("Add", out.cur_len, M.bytes_len(I2, delta), "usize")
+                if run.choose(2, "an earlier mutator already rewrote this emission") == 0:
+                    out.cur_len = I2.binop("Add", out.cur_len, M.bytes_len(I2, delta), "usize")
+                else:
+                    # every registered mutator gets the SAME snapshot: for the second one the tail of the buffer is the first
+                    # one's replacement, whose length has nothing to do with snapshot.output_delta
+                    out.cur_len = I2.binop("Add", out.cur_len, Sym("earlier_replacement_len", (), "usize", 1, 1 << 20), "usize")
             else:
                 delta = Bytes([])
                 out.marks.append((snap_len, 0))
